@@ -120,7 +120,7 @@ def main():
         "setup_cmd": "./setup.sh",
         "hooks": {
             "guard": "verif",
-            "enable": "no hook is committed to /repo; C09 (and the globals accessor for C08) generate additive files at check time from the current sources (rewritten copies of files that range over maps, a virtual package verifseam, one zz_verif_globals.go per package under build tag verif) and build the checker with `go build -tags verif -overlay <generated overlay.json>`; /repo itself is never modified",
+            "enable": "no hook is committed to /repo; C09 (and the globals accessor for C08) generate additive files at check time from the current sources (rewritten copies of files that range over maps or contain methods of the compile pipeline - the latter get a call to verifseam.Point at their entry, a scheduling point for the C08 explorer -, a virtual package verifseam, one zz_verif_globals.go per package under build tag verif) and build the checker with `go build -tags verif -overlay <generated overlay.json>`; /repo itself is never modified",
             "baseline_off_cmd": "cd /repo && GOFLAGS=-mod=mod go test -json -vet=off -count=1 -timeout 25m ./...",
             "source_commits": [],
             "add_only": True,
